@@ -186,12 +186,12 @@ func mixedOpt(i int) *gen.Opt {
 }
 
 func checkC05() int {
-	return staticCheck("C05", 5, []string{"substructural"}, 150, 1500, 2500, 60000,
+	return staticCheck("C05", 5, []string{"substructural"}, 300, 1500, 6000, 60000,
 		"G1 programs and their single-edit substructural mutants (delete / duplicate a consumer, wait->drop, drop inserted before a use, split then drop or use both halves, binder renamed to a live name for recv/case/split/shift/new, equal binders, extra provider name); oracle: if Grits accepts, R1 must not reject for a substructural reason; non-trivial = distinct mutant text judged by both", mixedOpt)
 }
 
 func checkC06() int {
-	return staticCheck("C06", 6, []string{"mode"}, 150, 1500, 2500, 60000,
+	return staticCheck("C06", 6, []string{"mode"}, 300, 1500, 6000, 60000,
 		"G1 mixed-mode programs and their single-edit mode mutants (recolour a parameter, result, process type, cut annotation or type definition to each other mode; change or flip a shift); oracle: if Grits accepts, R1 must not reject for an independence / shift reason; non-trivial = distinct mutant text judged by both",
 		func(i int) *gen.Opt {
 			o := gen.Opt{MaxSplit: 2, Pol: 2, Alias: 30, ExplicitSelf: 10, ExplicitProv: 10, Exec: 10, Print: 5, TopMax: 3, Fuel: 3, MultiProv: 20, Drop: 12, Split: 12, Mixed: true, MainMode: []vast.Mode{vast.Lin, vast.Lin, vast.Aff, vast.Mul, vast.Lin}[i%5]}
@@ -200,7 +200,7 @@ func checkC06() int {
 }
 
 func checkC07() int {
-	return staticCheck("C07", 7, nil, 200, 2000, 4000, 120000,
+	return staticCheck("C07", 7, nil, 400, 2000, 14000, 120000,
 		"G1 programs (must be accepted) and single-edit mutants of every family (substructural, mode, typing, type definitions, polarities); oracle: Grits' verdict equals R1's in both directions; disagreements whose reference reason is substructural / mode / type-formation are left to C05 / C06 / C10; non-trivial = distinct mutant text judged by both", mixedOpt)
 }
 
